@@ -97,6 +97,7 @@ func c20(args []string) int {
 		var from, to string
 		if p.Fam == "shadowB" {
 			from, to = subj, neutralName(subj)
+			progenum.RealName.Store(to, from)
 			twin = progenum.ShadowBuiltin(to, p.Meta["decl"], sigs[p.Meta["sig"]], p.Meta["args"], p.Meta["ctx"])
 		} else {
 			q := qn[subj]
@@ -342,6 +343,53 @@ func namesakeJob(ev *evidence.Run, set *harness.Set, name string, files []harnes
 				nf[fi] = harness.File{Name: files[fi].Name, Src: progenum.Apply(src, edits) + decl}
 				return nf
 			}
+			// variant B: a user *package* with the same name and the same function signatures (import path differs)
+			mkPkg := func(asName string) []harness.File {
+				needed := map[string]string{}
+				qual := func(p *types.Package) string {
+					a := "vq_" + strings.ReplaceAll(p.Name(), "/", "_")
+					needed[a] = p.Path()
+					return a
+				}
+				var names []string
+				for n := range funcs {
+					names = append(names, n)
+				}
+				sort.Strings(names)
+				var decls []string
+				for _, n := range names {
+					decls = append(decls, renderFuncDecl(funcs[n], qual))
+				}
+				var imps []string
+				for a, pth := range needed {
+					imps = append(imps, fmt.Sprintf("import %s %q", a, pth))
+				}
+				sort.Strings(imps)
+				fakePath := fmt.Sprintf("fake/ns/%s/%d/%s/%s", name, fi, strings.ReplaceAll(ipath, "/", "_"), pkgName.Imported().Name())
+				registerFake(fakePath, "package "+pkgName.Imported().Name()+"\n\n"+strings.Join(imps, "\n")+"\n\n"+strings.Join(decls, "\n")+"\n")
+				var edits []progenum.Edit
+				off := func(n ast.Node) (int, int) {
+					return harness.Fset.Position(n.Pos()).Offset, harness.Fset.Position(n.End()).Offset
+				}
+				s0, s1 := off(spec)
+				specText := strconv.Quote(fakePath)
+				if asName != pkgName.Imported().Name() {
+					specText = asName + " " + specText
+				}
+				edits = append(edits, progenum.Edit{From: s0, To: s1, Text: specText})
+				if asName != local {
+					for _, u := range uses {
+						a, b := off(u.id)
+						edits = append(edits, progenum.Edit{From: a, To: b, Text: asName})
+					}
+				}
+				nf := make([]harness.File, len(files))
+				copy(nf, files)
+				nf[fi] = harness.File{Name: files[fi].Name, Src: progenum.Apply(src, edits)}
+				return nf
+			}
+			judgePair(ev, set, name, path, files, fi, ipath, local, oset, mkPkg(local), mkPkg(neutralName(local)), "import-pkg", "user package", &ran, &judged)
+
 			mfiles := mk(local)
 			nfiles := mk(neutralName(local))
 			if !harness.Precheck(path, mfiles) || !harness.Precheck(path, nfiles) {
@@ -386,6 +434,76 @@ func namesakeJob(ev *evidence.Run, set *harness.Set, name string, files []harnes
 		}
 	}
 	return
+}
+
+// judgePair analyses a namesake variant and its neutral-name twin and reports diagnostics of the original that
+// survive in the namesake but not in the twin.
+func judgePair(ev *evidence.Run, set *harness.Set, name, path string, files []harness.File, fi int, ipath, local string, oset map[diagKey]int, mfiles, nfiles []harness.File, kind, noun string, ran, judged *int) {
+	if !harness.Precheck(path, mfiles) || !harness.Precheck(path, nfiles) {
+		return
+	}
+	mp := harness.Load(path, mfiles)
+	np := harness.Load(path, nfiles)
+	defer mp.Release()
+	defer np.Release()
+	md, mc := set.VisitAll(mp)
+	nd, nc := set.VisitAll(np)
+	*ran += 2
+	ev.Eval(2)
+	if len(mc)+len(nc) != 0 {
+		return
+	}
+	nset := diagSet(nd, func(s string) string { return strings.ReplaceAll(s, neutralName(local)+".", local+".") })
+	judgedHere := false
+	for _, d := range md {
+		if shadowSubjectCheckers[d.Checker] || d.File != files[fi].Name {
+			continue
+		}
+		k := diagKey{d.Checker, d.File, d.Line, d.Col, d.Text}
+		if oset[k] == 0 {
+			continue
+		}
+		judgedHere = true
+		if nset[k] > 0 {
+			continue
+		}
+		prog := &progenum.Prog{ID: fmt.Sprintf("namesake-%s|%s|%s|%s", kind, name, files[fi].Name, ipath), Path: path, Files: mfiles}
+		rp := progReplay(prog, d.Checker)
+		rp["fake_packages"] = fakeSources(mfiles)
+		ev.Violate(evidence.Violation{
+			Key:      fmt.Sprintf("%s|%s:%s", d.Checker, kind, ipath),
+			What:     fmt.Sprintf("%s reports calls into a %s named %q exactly as it reports the real package %q", d.Checker, noun, local, ipath),
+			Observed: d.String() + "\n(the import was replaced by a " + noun + " with the same name and function signatures; renaming it makes the diagnostic disappear)",
+			Replay:   rp,
+		})
+	}
+	if judgedHere {
+		*judged++
+		ev.Nontrivial(fmt.Sprintf("namesake-%s|%s|%s|%s", kind, name, files[fi].Name, ipath))
+	}
+}
+
+// renderFuncDecl renders `func Name(p0 T0, ...) R { panic(0) }` for fn's exact signature.
+func renderFuncDecl(fn *types.Func, qual types.Qualifier) string {
+	sig := fn.Type().(*types.Signature)
+	var ps []string
+	for i := 0; i < sig.Params().Len(); i++ {
+		t := sig.Params().At(i).Type()
+		ts := types.TypeString(t, qual)
+		if sig.Variadic() && i == sig.Params().Len()-1 {
+			ts = "..." + types.TypeString(t.(*types.Slice).Elem(), qual)
+		}
+		ps = append(ps, fmt.Sprintf("p%d %s", i, ts))
+	}
+	var rs []string
+	for i := 0; i < sig.Results().Len(); i++ {
+		rs = append(rs, types.TypeString(sig.Results().At(i).Type(), qual))
+	}
+	res := ""
+	if len(rs) > 0 {
+		res = " (" + strings.Join(rs, ", ") + ")"
+	}
+	return fmt.Sprintf("func %s(%s)%s { panic(0) }", fn.Name(), strings.Join(ps, ", "), res)
 }
 
 func c20Replay(file string) int {
